@@ -492,6 +492,30 @@ pub fn vh_phy(a: &Args) {
             }
         }
     }
+    // sleep interleavings: lose the configuration, wake the chip by a call that does not reprogram it (or not at
+    // all), sleep again (warm or cold), then prepare and start an operation: the cold-start bookkeeping must
+    // survive any mixture of warm and cold sleeps
+    if !lw {
+        for s1 in ["sleep_cold", "sleep_warm"] {
+            for w in ["sync_word", "init", "listen", ""] {
+                for s2 in ["sleep_cold", "sleep_warm", ""] {
+                    for p in &pairs {
+                        let mut t = vec![st(s1, vec![])];
+                        if !w.is_empty() {
+                            t.push(st(w, vec![]));
+                        }
+                        if !s2.is_empty() {
+                            t.push(st(s2, vec![]));
+                        }
+                        t.extend(p.iter().cloned());
+                        run_history(out.shard(h), chip, &t);
+                        h += 1;
+                        nhist += 1;
+                    }
+                }
+            }
+        }
+    }
     // fault / cancel at every bus position of the last call, after every prefix of length depth-1
     let prefixes: Vec<Vec<Step>> = if fdepth <= 1 { vec![vec![]] } else { seqs.iter().filter(|s| s.len() == fdepth - 1).cloned().collect() };
     let recover = if lw { "lw_setup_single" } else { "prep_tx" };
